@@ -45,7 +45,10 @@ type dialer struct {
 }
 
 func (d *dialer) Dial() (_ transport.Pipe, err error) {
-	conn, err := d.d.Dial("tcp", d.addr)
+	d.lock.Lock()
+	nd := d.d
+	d.lock.Unlock()
+	conn, err := nd.Dial("tcp", d.addr)
 	if err != nil {
 		return nil, err
 	}
